@@ -4,9 +4,9 @@ import FeatherModel.Lemmas.VisitProj3
 /-!
 # C17 lemmas — a masked / declining replay delivers the projection of the full replay
 
-`projA cfg` is the projection `ClassFile::accept` realises: like `proj` (the reader's) except that it honours
-`ClassInterests.fields / .methods`, never strips stack map frames, and hands out the whole local variable table as soon
-as one of the two local-variable interests is set.
+`projA cfg` is the projection `ClassFile::accept` realises: like `proj` (the reader's) except for local variable vectors
+without entries (`Some(vec![])`: handed to every visitor interested in one of the two tables, the tree cannot tell which
+table was the empty one).
 -/
 
 set_option linter.unusedSimpArgs false
@@ -45,13 +45,18 @@ variable (cfg : Cfg)
 @[simp] theorem projA_codeExc (i h : Nat) : projA cfg (.codeExc i h) = keepIf (codeMaskOfA cfg i).isSome (.codeExc i h) := rfl
 @[simp] theorem projA_codeEnd (i : Nat) : projA cfg (.codeEnd i) = keepIf (codeMaskOfA cfg i).isSome (.codeEnd i) := rfl
 @[simp] theorem projA_codeInsns (i : Nat) (fr : Option Pay) (h : Nat) : projA cfg (.codeInsns i fr h) =
-    keepIf (codeMaskOfA cfg i).isSome (.codeInsns i fr h) := rfl
+    (match codeMaskOfA cfg i with
+      | some cm => some (.codeInsns i (if cm .stackMapTable then fr else none) h) | none => none) := rfl
 @[simp] theorem projA_kAttr (i : Nat) (unk : Bool) (k : K) (pay : Pay) : projA cfg (.kAttr i unk k pay) =
     (match codeMaskOfA cfg i with | some cm => keepIf (cm (evBit unk k)) (.kAttr i unk k pay) | none => none) := rfl
 @[simp] theorem projA_codeLines (i : Nat) (parts : List Pay) : projA cfg (.codeLines i parts) =
     (match codeMaskOfA cfg i with | some cm => keepIf (cm .lineNumberTable) (.codeLines i parts) | none => none) := rfl
-@[simp] theorem projA_codeLocals (i : Nat) (parts : List (Bool × Pay)) : projA cfg (.codeLocals i parts) =
-    (match codeMaskOfA cfg i with | some cm => keepIf (cm .lvt || cm .lvtt) (.codeLocals i parts) | none => none) := rfl
+@[simp] theorem projA_codeLocals (i : Nat) (parts : List LvPart) : projA cfg (.codeLocals i parts) =
+    (match codeMaskOfA cfg i with
+      | some cm =>
+        if (cm .lvt || cm .lvtt) && (lvNone parts || !lvNone (lvProj cm parts)) then some (.codeLocals i (lvProj cm parts))
+        else none
+      | none => none) := rfl
 end projAEqs
 
 /-! ## attribute slots -/
@@ -199,10 +204,30 @@ theorem acceptFields_drop {cfg : Cfg} (hb : ∀ i h, projA cfg (.fieldBegin i h)
 
 /-! ## code and methods -/
 
+theorem acceptLocals_all (i : Nat) (p : List LvPart) : acceptLocals i allMask p = [Ev.codeLocals i p] := by
+  simp only [acceptLocals, lvProj_all]
+  cases lvNone p <;> simp
+
+theorem acceptLocals_proj {cfg : Cfg} {i : Nat} {cm : Mask} (hn : codeMaskOfA cfg i = some cm) (p : List LvPart) :
+    [Ev.codeLocals i p].filterMap (projA cfg) = if cm .lvt || cm .lvtt then acceptLocals i cm p else [] := by
+  simp only [List.filterMap_cons, List.filterMap_nil, projA_codeLocals, hn, acceptLocals]
+  cases cm .lvt <;> cases cm .lvtt <;> cases lvNone p <;> cases lvNone (lvProj cm p) <;> simp
+
+theorem acceptLocals_proj_cons {cfg : Cfg} {i : Nat} {cm : Mask} (hn : codeMaskOfA cfg i = some cm) (p : List LvPart)
+    (rest : List Ev) :
+    (Ev.codeLocals i p :: rest).filterMap (projA cfg)
+      = (if cm .lvt || cm .lvtt then acceptLocals i cm p else []) ++ rest.filterMap (projA cfg) := by
+  have h : Ev.codeLocals i p :: rest = [Ev.codeLocals i p] ++ rest := rfl
+  rw [h, List.filterMap_append, acceptLocals_proj hn]
+
+theorem acceptLocals_drop {cfg : Cfg} {i : Nat} (hn : codeMaskOfA cfg i = none) (p : List LvPart) :
+    [Ev.codeLocals i p].filterMap (projA cfg) = [] := by
+  simp [hn]
+
 theorem acceptCode_proj {cfg : Cfg} {i : Nat} {mc : MethodCfg} (hmc : methodCfgOfA cfg i = some mc) (t : CodeTree) :
     (acceptCode i fullMc t).filterMap (projA cfg) = acceptCode i mc t := by
   unfold acceptCode
-  simp only [fullMc, if_true, allMask, Bool.or_self]
+  simp only [fullMc, if_true, allMask, Bool.or_self, ↓reduceIte]
   cases hcode : mc.code with
   | false =>
     have hn : codeMaskOfA cfg i = none := by simp [codeMaskOfA, hmc, hcode]
@@ -213,7 +238,7 @@ theorem acceptCode_proj {cfg : Cfg} {i : Nat} {mc : MethodCfg} (hmc : methodCfgO
     have h3 : (t.insns.map (fun x => Ev.codeInsns i x.1 x.2)).filterMap (projA cfg) = [] := by
       rw [List.filterMap_map]; exact filterMap_all_none _ (by intro a; simp [hn, keepIf]) _
     cases t.maxs <;> cases t.lines <;> cases t.locals <;>
-      simp [List.filterMap_append, hmc, hcode, hn, keepIf, h1, h2, h3]
+      simp [List.filterMap_append, hmc, hcode, hn, keepIf, h1, h2, h3, acceptLocals_all]
   | true =>
     cases hcv : mc.codeV with
     | none =>
@@ -225,7 +250,7 @@ theorem acceptCode_proj {cfg : Cfg} {i : Nat} {mc : MethodCfg} (hmc : methodCfgO
       have h3 : (t.insns.map (fun x => Ev.codeInsns i x.1 x.2)).filterMap (projA cfg) = [] := by
         rw [List.filterMap_map]; exact filterMap_all_none _ (by intro a; simp [hn, keepIf]) _
       cases t.maxs <;> cases t.lines <;> cases t.locals <;>
-        simp [List.filterMap_append, hmc, hcode, hn, keepIf, h1, h2, h3]
+        simp [List.filterMap_append, hmc, hcode, hn, keepIf, h1, h2, h3, acceptLocals_all]
     | some cm =>
       have hn : codeMaskOfA cfg i = some cm := by simp [codeMaskOfA, hmc, hcode, hcv]
       have h1 := emitKinds_proj (m := cm) (mk := Ev.kAttr i) (projA cfg)
@@ -233,17 +258,17 @@ theorem acceptCode_proj {cfg : Cfg} {i : Nat} {mc : MethodCfg} (hmc : methodCfgO
       have h2 := emitUnknown_proj (m := cm) (mk := Ev.kAttr i) (projA cfg)
         (by intro unk k pay; simp [hn]) t.slots
       have h3 : (t.insns.map (fun x => Ev.codeInsns i x.1 x.2)).filterMap (projA cfg)
-          = t.insns.map (fun x => Ev.codeInsns i x.1 x.2) := by
+          = t.insns.map (fun x => Ev.codeInsns i (if cm .stackMapTable then x.1 else none) x.2) := by
         rw [List.filterMap_map]; exact filterMap_all_some _ _ (by intro a; simp [hn, keepIf]) _
+      have h4 := acceptLocals_proj_cons hn
       cases t.maxs <;> cases t.lines <;> cases t.locals <;> cases hl : cm .lineNumberTable <;>
-        cases hv : cm .lvt <;> cases hw : cm .lvtt <;>
-        simp [List.filterMap_append, hmc, hcode, hn, keepIf, h1, h2, h3, hl, hv, hw]
+        simp [List.filterMap_append, hmc, hcode, hn, keepIf, h1, h2, h3, hl, acceptLocals_all, h4]
 
 theorem acceptCode_drop {cfg : Cfg} {i : Nat} (hb : projA cfg (.codeBegin i) = none)
     (hn : codeMaskOfA cfg i = none) (t : CodeTree) :
     (acceptCode i fullMc t).filterMap (projA cfg) = [] := by
   unfold acceptCode
-  simp only [fullMc, if_true, allMask, Bool.or_self]
+  simp only [fullMc, if_true, allMask, Bool.or_self, ↓reduceIte]
   have h1 := emitKinds_drop (m0 := allMask) (mk := Ev.kAttr i) (projA cfg)
     (by intro unk k pay; simp [hn]) codeOrder t.slots
   have h2 := emitUnknown_drop (m0 := allMask) (mk := Ev.kAttr i) (projA cfg)
@@ -251,7 +276,7 @@ theorem acceptCode_drop {cfg : Cfg} {i : Nat} (hb : projA cfg (.codeBegin i) = n
   have h3 : (t.insns.map (fun x => Ev.codeInsns i x.1 x.2)).filterMap (projA cfg) = [] := by
     rw [List.filterMap_map]; exact filterMap_all_none _ (by intro a; simp [hn, keepIf]) _
   cases t.maxs <;> cases t.lines <;> cases t.locals <;>
-    simp [List.filterMap_append, hb, hn, keepIf, h1, h2, h3]
+    simp [List.filterMap_append, hb, hn, keepIf, h1, h2, h3, acceptLocals_all]
 
 theorem acceptMethods_proj {cfg : Cfg} {m : Mask} (hc : cfg.cls = some m) (hf : cfg.methodsI = true) :
     ∀ (ts : List MethodTree) (i : Nat), (acceptMethods full i ts).filterMap (projA cfg) = acceptMethods cfg i ts := by
@@ -364,68 +389,211 @@ theorem accept_proj (cfg : Cfg) (t : ClassTree) : accept cfg t = (accept full t)
 
 /-! ## where the replay's projection is the reader's -/
 
-theorem projA_eq_proj (cfg : Cfg) (hf : cfg.fieldsI = true) (hm : cfg.methodsI = true)
-    (hcode : ∀ i cm, codeMaskOf cfg i = some cm → cm .stackMapTable = true ∧ cm .lvt = cm .lvtt)
-    (e : Ev) (hne : ∀ i, e ≠ .codeLocals i []) : projA cfg e = proj cfg e := by
-  have hcmA : ∀ i, codeMaskOfA cfg i = codeMaskOf cfg i := by
-    intro i
-    simp only [codeMaskOfA, methodCfgOfA, codeMaskOf, hm, if_true]
-    cases cfg.cls <;> cases cfg.method i <;> simp
-  have hfm : ∀ i, fieldMaskOfA cfg i = (match cfg.cls with | some _ => cfg.field i | none => none) := by
-    intro i; simp only [fieldMaskOfA, hf, if_true]; cases cfg.cls <;> rfl
-  have hmm : ∀ i, methodCfgOfA cfg i = (match cfg.cls with | some _ => cfg.method i | none => none) := by
-    intro i; simp only [methodCfgOfA, hm, if_true]; cases cfg.cls <;> rfl
+theorem fieldMaskOfA_eq (cfg : Cfg) (i : Nat) : fieldMaskOfA cfg i =
+    (match cfg.cls, cfg.field i with | some _, some fm => if cfg.fieldsI then some fm else none | _, _ => none) := by
+  simp only [fieldMaskOfA]; cases cfg.cls <;> cases cfg.field i <;> cases cfg.fieldsI <;> rfl
+
+theorem methodCfgOfA_eq (cfg : Cfg) (i : Nat) : methodCfgOfA cfg i =
+    (match cfg.cls, cfg.method i with | some _, some mc => if cfg.methodsI then some mc else none | _, _ => none) := by
+  simp only [methodCfgOfA]; cases cfg.cls <;> cases cfg.method i <;> cases cfg.methodsI <;> rfl
+
+theorem codeMaskOfA_eq (cfg : Cfg) (i : Nat) : codeMaskOfA cfg i = codeMaskOf cfg i := by
+  simp only [codeMaskOfA, methodCfgOfA, codeMaskOf]
+  cases cfg.cls <;> cases cfg.method i <;> cases cfg.methodsI <;> simp
+
+def Ev.isLocals : Ev → Bool
+  | .codeLocals _ _ => true
+  | _ => false
+
+/-- replay and read project every event but `visit_local_variables` alike, whatever the visitor's interests -/
+theorem projA_eq_proj_of_not_locals (cfg : Cfg) (e : Ev) (hl : e.isLocals = false) : projA cfg e = proj cfg e := by
+  have hcmA := codeMaskOfA_eq cfg
   cases e with
-  | fieldBegin i h => simp [hf]
-  | fAttr i unk k pay => simp only [projA_fAttr, proj_fAttr, hfm]; cases cfg.cls <;> cases cfg.field i <;> simp
-  | fieldFlags i d s => simp only [projA_fieldFlags, proj_fieldFlags, hfm]; cases cfg.cls <;> cases cfg.field i <;> simp
-  | fieldEnd i => simp only [projA_fieldEnd, proj_fieldEnd, hfm]; cases cfg.cls <;> cases cfg.field i <;> simp
-  | methodBegin i h => simp [hm]
-  | mAttr i unk k pay => simp only [projA_mAttr, proj_mAttr, hmm]; cases cfg.cls <;> cases cfg.method i <;> simp
-  | methodFlags i d s => simp only [projA_methodFlags, proj_methodFlags, hmm]; cases cfg.cls <;> cases cfg.method i <;> simp
-  | methodEnd i => simp only [projA_methodEnd, proj_methodEnd, hmm]; cases cfg.cls <;> cases cfg.method i <;> simp
-  | codeBegin i => simp only [projA_codeBegin, proj_codeBegin, hmm]; cases cfg.cls <;> cases cfg.method i <;> simp
+  | fieldBegin i h => simp
+  | fAttr i unk k pay =>
+    simp only [projA_fAttr, proj_fAttr, fieldMaskOfA_eq]
+    cases cfg.cls <;> cases cfg.field i <;> cases cfg.fieldsI <;> simp [keepIf]
+  | fieldFlags i d s =>
+    simp only [projA_fieldFlags, proj_fieldFlags, fieldMaskOfA_eq]
+    cases cfg.cls <;> cases cfg.field i <;> cases cfg.fieldsI <;> simp
+  | fieldEnd i =>
+    simp only [projA_fieldEnd, proj_fieldEnd, fieldMaskOfA_eq]
+    cases cfg.cls <;> cases cfg.field i <;> cases cfg.fieldsI <;> simp
+  | methodBegin i h => simp
+  | mAttr i unk k pay =>
+    simp only [projA_mAttr, proj_mAttr, methodCfgOfA_eq]
+    cases cfg.cls <;> cases cfg.method i <;> cases cfg.methodsI <;> simp [keepIf]
+  | methodFlags i d s =>
+    simp only [projA_methodFlags, proj_methodFlags, methodCfgOfA_eq]
+    cases cfg.cls <;> cases cfg.method i <;> cases cfg.methodsI <;> simp
+  | methodEnd i =>
+    simp only [projA_methodEnd, proj_methodEnd, methodCfgOfA_eq]
+    cases cfg.cls <;> cases cfg.method i <;> cases cfg.methodsI <;> simp
+  | codeBegin i =>
+    simp only [projA_codeBegin, proj_codeBegin, methodCfgOfA_eq]
+    cases cfg.cls <;> cases cfg.method i <;> cases cfg.methodsI <;> simp [keepIf]
   | codeMaxs i h => simp [hcmA]
   | codeExc i h => simp [hcmA]
   | codeEnd i => simp [hcmA]
   | kAttr i unk k pay => simp only [projA_kAttr, proj_kAttr, hcmA]; cases codeMaskOf cfg i <;> rfl
   | codeLines i parts => simp only [projA_codeLines, proj_codeLines, hcmA]; cases codeMaskOf cfg i <;> rfl
-  | codeInsns i fr h =>
-    simp only [projA_codeInsns, proj_codeInsns, hcmA]
-    cases hcm : codeMaskOf cfg i with
-    | none => simp [keepIf]
-    | some cm => simp [keepIf, (hcode i cm hcm).1]
-  | codeLocals i parts =>
-    simp only [projA_codeLocals, proj_codeLocals, hcmA]
-    cases hcm : codeMaskOf cfg i with
-    | none => rfl
-    | some cm =>
-      have hl := (hcode i cm hcm).2
-      have hp : parts ≠ [] := by intro h; exact hne i (by rw [h])
-      cases hv : cm .lvtt with
-      | false =>
-        have : parts.filter (fun x => if x.1 = true then cm .lvt else cm .lvtt) = [] := by
-          simp [hl, hv]
-        simp only [this]
-        simp [keepIf, hl, hv]
-      | true =>
-        have : parts.filter (fun x => if x.1 = true then cm .lvt else cm .lvtt) = parts := by
-          simp [hl, hv]
-        simp only [this]
-        simp [keepIf, hl, hv, hp]
+  | codeInsns i fr h => simp only [projA_codeInsns, proj_codeInsns, hcmA]; cases codeMaskOf cfg i <;> rfl
+  | codeLocals i parts => simp [Ev.isLocals] at hl
   | _ => rfl
 
-theorem filterMap_projA_eq_proj (cfg : Cfg) (hf : cfg.fieldsI = true) (hm : cfg.methodsI = true)
-    (hcode : ∀ i cm, codeMaskOf cfg i = some cm → cm .stackMapTable = true ∧ cm .lvt = cm .lvtt)
-    (evs : List Ev) (hne : ∀ i, Ev.codeLocals i [] ∉ evs) :
+/-! ### local variable vectors -/
+
+theorem lvNone_lvProj (cm : Mask) : ∀ p : List LvPart, lvNone p = true → lvNone (lvProj cm p) = true := by
+  intro p
+  induction p with
+  | nil => intro _; rfl
+  | cons x xs ih =>
+    intro h
+    simp only [lvNone, List.all_cons, Bool.and_eq_true] at h ih ⊢
+    simp only [lvProj, List.filterMap_cons]
+    cases hs : x.1.strip cm with
+    | none => simpa [lvProj] using ih h.2
+    | some k =>
+      simp only [Option.map_some, List.all_cons, Bool.and_eq_true]
+      exact ⟨h.1, by simpa [lvProj] using ih h.2⟩
+
+theorem lvProj_no_interest {cm : Mask} (h1 : cm .lvt = false) (h2 : cm .lvtt = false) (p : List LvPart) :
+    lvProj cm p = [] := by
+  induction p with
+  | nil => rfl
+  | cons x xs ih =>
+    simp only [lvProj, List.filterMap_cons] at ih ⊢
+    have : x.1.strip cm = none := by cases x.1 <;> simp [LvK.strip, h1, h2]
+    simp [this, ih]
+
+/-- when every part has entries, what is left of them has entries unless nothing is left -/
+theorem lvNone_lvProj_of_entries (cm : Mask) : ∀ p : List LvPart, (∀ x ∈ p, x.2.sum ≠ 0) →
+    lvNone (lvProj cm p) = (lvProj cm p).isEmpty := by
+  intro p
+  induction p with
+  | nil => intro _; rfl
+  | cons x xs ih =>
+    intro h
+    have hx := h x (by simp)
+    have ih' := ih (fun y hy => h y (by simp [hy]))
+    simp only [lvProj, List.filterMap_cons] at ih' ⊢
+    cases hs : x.1.strip cm with
+    | none => simpa using ih'
+    | some k => simp [lvNone, hx]
+
+/-- replay and read project every event alike up to local variable events without entries -/
+theorem projA_eq_proj_up_to_vacuous (cfg : Cfg) (e : Ev) :
+    (projA cfg e).filter (fun e' => !e'.vacuous) = (proj cfg e).filter (fun e' => !e'.vacuous) := by
+  cases hl : e.isLocals with
+  | false => rw [projA_eq_proj_of_not_locals cfg e hl]
+  | true =>
+    cases e with
+    | codeLocals i parts =>
+      simp only [projA_codeLocals, proj_codeLocals, codeMaskOfA_eq]
+      cases hcm : codeMaskOf cfg i with
+      | none => rfl
+      | some cm =>
+        simp only []
+        cases hq : lvNone (lvProj cm parts) with
+        | true =>
+          have hp : ∀ b : Bool, (if b = true then some (Ev.codeLocals i (lvProj cm parts)) else none).filter
+              (fun e' => !e'.vacuous) = none := by
+            intro b; cases b <;> simp [Option.filter, Ev.vacuous, hq]
+          have hp' : ∀ b : Bool, (if b = true then none else some (Ev.codeLocals i (lvProj cm parts))).filter
+              (fun e' => !e'.vacuous) = none := by
+            intro b; cases b <;> simp [Option.filter, Ev.vacuous, hq]
+          rw [hp, hp']
+        | false =>
+          have hne : (lvProj cm parts).isEmpty = false := by
+            cases h : lvProj cm parts with
+            | nil => rw [h] at hq; simp [lvNone] at hq
+            | cons _ _ => rfl
+          have hi : (cm .lvt || cm .lvtt) = true := by
+            cases h1 : cm .lvt <;> cases h2 : cm .lvtt <;> simp
+            rw [lvProj_no_interest h1 h2] at hne; simp at hne
+          simp [hne, hi]
+    | _ => simp [Ev.isLocals] at hl
+
+/-- replay and read project every event alike, except a local variable event without entries: such a vector (an empty
+`Some(vec![])`, or parts that count no entry) does not say which table it came from -/
+theorem projA_eq_proj (cfg : Cfg) (e : Ev)
+    (hne : ∀ i parts, e = .codeLocals i parts → parts ≠ [] ∧ ∀ x ∈ parts, x.2.sum ≠ 0) : projA cfg e = proj cfg e := by
+  cases hl : e.isLocals with
+  | false => exact projA_eq_proj_of_not_locals cfg e hl
+  | true =>
+    cases e with
+    | codeLocals i parts =>
+      obtain ⟨hp, hx⟩ := hne i parts rfl
+      simp only [projA_codeLocals, proj_codeLocals, codeMaskOfA_eq]
+      cases hcm : codeMaskOf cfg i with
+      | none => rfl
+      | some cm =>
+        simp only []
+        have hnp : lvNone parts = false := by
+          cases parts with
+          | nil => exact absurd rfl hp
+          | cons y ys => simp [lvNone, hx y (by simp)]
+        rw [hnp, lvNone_lvProj_of_entries cm parts hx]
+        cases hq : (lvProj cm parts).isEmpty with
+        | true => simp
+        | false =>
+          have hi : (cm .lvt || cm .lvtt) = true := by
+            cases h1 : cm .lvt <;> cases h2 : cm .lvtt <;> simp
+            rw [lvProj_no_interest h1 h2] at hq; simp at hq
+          simp [hi]
+    | _ => simp [Ev.isLocals] at hl
+
+theorem filterMap_projA_eq_proj (cfg : Cfg) (evs : List Ev)
+    (hne : ∀ i parts, Ev.codeLocals i parts ∈ evs → parts ≠ [] ∧ ∀ x ∈ parts, x.2.sum ≠ 0) :
     evs.filterMap (projA cfg) = evs.filterMap (proj cfg) := by
   induction evs with
   | nil => rfl
   | cons e evs ih =>
-    have he : ∀ i, e ≠ .codeLocals i [] := by
-      intro i h; exact hne i (by simp [h])
-    have ht : ∀ i, Ev.codeLocals i [] ∉ evs := by
-      intro i h; exact hne i (by simp [h])
-    simp only [List.filterMap_cons, projA_eq_proj cfg hf hm hcode e he, ih ht]
+    have he : ∀ i parts, e = .codeLocals i parts → parts ≠ [] ∧ ∀ x ∈ parts, x.2.sum ≠ 0 := by
+      intro i parts h; exact hne i parts (by simp [h])
+    have ht : ∀ i parts, Ev.codeLocals i parts ∈ evs → parts ≠ [] ∧ ∀ x ∈ parts, x.2.sum ≠ 0 := by
+      intro i parts h; exact hne i parts (by simp [h])
+    simp only [List.filterMap_cons, projA_eq_proj cfg e he, ih ht]
+
+theorem localsHaveEntries_spec {evs : List Ev} (h : localsHaveEntries evs = true) :
+    ∀ i parts, Ev.codeLocals i parts ∈ evs → parts ≠ [] ∧ ∀ x ∈ parts, x.2.sum ≠ 0 := by
+  intro i parts hm
+  have := (List.all_eq_true.mp h) _ hm
+  simp only [Bool.and_eq_true, Bool.not_eq_true', List.isEmpty_eq_false_iff, List.all_eq_true, bne_iff_ne, ne_eq] at this
+  exact this
+
+/-- filtering after two projections that agree up to the filter -/
+theorem filterMap_filter_congr {f g : Ev → Option Ev} {q : Ev → Bool}
+    (h : ∀ e, (f e).filter q = (g e).filter q) :
+    ∀ l : List Ev, (l.filterMap f).filter q = (l.filterMap g).filter q := by
+  intro l
+  induction l with
+  | nil => rfl
+  | cons e l ih =>
+    have he := h e
+    cases hf : f e with
+    | none =>
+      cases hg : g e with
+      | none => simp [List.filterMap_cons, hf, hg, ih]
+      | some b =>
+        rw [hf, hg] at he
+        have hb : q b = false := by
+          cases hq : q b
+          · rfl
+          · simp [Option.filter, hq] at he
+        simp [List.filterMap_cons, hf, hg, List.filter_cons, hb, ih]
+    | some a =>
+      cases hg : g e with
+      | none =>
+        rw [hf, hg] at he
+        have ha : q a = false := by
+          cases hq : q a
+          · rfl
+          · simp [Option.filter, hq] at he
+        simp [List.filterMap_cons, hf, hg, List.filter_cons, ha, ih]
+      | some b =>
+        rw [hf, hg] at he
+        cases hqa : q a <;> cases hqb : q b <;> simp [Option.filter, hqa, hqb] at he <;>
+          simp [List.filterMap_cons, hf, hg, List.filter_cons, hqa, hqb, ih, he]
 
 end Visit
